@@ -17,6 +17,10 @@ def usable_cases(rng, n, want=None, maxtries=None):
         tries += 1
         c = GB.gen_case(rng)
         c['cfg']['file'] = c['cfg']['file'].replace('My.Model', 'MyModel')
+        import re
+        stem = os.path.splitext(os.path.basename(c['cfg']['file']))[0] + c['cfg'].get('suffix', 'AdvShell')
+        if not re.match(r'^[A-Za-z_][A-Za-z0-9_]*$', stem):
+            continue                      # K8: the shell struct is named after the file; not a C++ identifier here
         if len(c['cfg']['enc']) == 1:
             continue                      # K2: global-namespace encapsulee cannot be used from the driver's translation unit
         names = [p[0] for p in c['info']['ports']]
@@ -151,6 +155,19 @@ def many_cases():
         out.append({'file': file, 'cfg': {'file': 'Many.dzn', 'enc': ['My', 'Many'], 'fac': 'create', 'ports': pc}})
     mc = {'p': [['w', 'none'], ['w', 'all']], 'r': [['w', 'none'], ['w', 'all']], 'mc': ['p11', 'e9', ['R1'], 'e10']}
     out.append({'file': file, 'cfg': {'file': 'Many.dzn', 'enc': ['My', 'Many'], 'fac': 'import', 'ports': mc}})
+    return out
+
+
+def case_only_cases():
+    """events (and enum fields) whose names differ only in letter case; either one configured as claim / release"""
+    out = []
+    events = [['Reserve', 'in', ['Result'], []], ['reserve', 'in', ['void'], []], ['RESERVE', 'in', ['Result'], []], ['Use', 'in', ['void'], []],
+              ['Done', 'out', ['void'], []], ['done', 'out', ['void'], []]]
+    file = [['ns', ['My'], [['itf', ['IArb'], [['enum', ['Result'], ['ok', 'Ok', 'OK']]], events],
+                            ['comp', ['Desk'], [['api', ['IArb'], 'provides', False], ['dev', ['IArb'], 'requires', False]]]]]]
+    for claim, grant, release in (('Reserve', 'Ok', 'reserve'), ('RESERVE', 'ok', 'reserve'), ('Reserve', 'OK', 'Use')):
+        out.append({'file': file, 'cfg': {'file': 'Desk.dzn', 'enc': ['My', 'Desk'], 'fac': 'create',
+                                           'ports': {'p': [['w', 'none'], ['w', 'all']], 'r': [['w', 'none'], ['w', 'all']], 'mc': ['api', claim, [grant], release]}}})
     return out
 
 
